@@ -45,6 +45,7 @@ type rdOp struct {
 	Order packet.ByteOrder
 	Field []modbus.Field         // ExtractFields
 	Breq  *modbus.BuilderRequest // non-nil: the extraction goes through this builder-made request (Fields replaced by Field)
+	View  int                    // long histories: 1 = the reader makes a new view of the response for this read, 2 = it goes back to its first view
 }
 
 func (o rdOp) String() string {
@@ -221,19 +222,37 @@ func runC13(rc *RunCtx) {
 	server := "plc-a:502"
 	devSeed := uint64(t.Choose(1 << 30))
 	nreaders := 1 + t.Choose(4)
+	// a long history: one response is read some hundred times (a value cache, a display refreshing itself), through
+	// views made again and again, with strings of every position and length
+	marathon := t.Chance(1, 150)
+	if marathon {
+		nreaders = 1 + t.Choose(2)
+		if t.Chance(1, 2) {
+			qty = []int{64, 125, 32, 100}[t.Choose(4)]
+			if start+qty > 65536 {
+				start = 65536 - qty
+			}
+		}
+	}
 	readers := make([][]rdOp, nreaders)
 	for r := range readers {
 		n := 1 + t.Choose(12)
+		if marathon && r == 0 {
+			n = 280 + t.Choose(500)
+		}
 		for i := 0; i < n; i++ {
 			kind := t.Choose(len(c13OpNames))
 			if r == 0 && i == 0 {
 				kind = firstKind
 			}
 			// strings and extraction are where rearranging happens: over-weight them
-			if t.Chance(1, 4) {
+			if t.Chance(1, 4) || (marathon && t.Chance(1, 2)) {
 				kind = []int{18, 19, 19, 23, 24}[t.Choose(5)]
 			}
 			op := genRdOp(t, kind, start, qty, server, unit)
+			if marathon {
+				op.View = []int{0, 1, 1, 1, 2, 0}[t.Choose(6)]
+			}
 			readers[r] = append(readers[r], op)
 			if t.Chance(1, 4) {
 				readers[r] = append(readers[r], op) // the same read again
@@ -295,7 +314,7 @@ func runC13(rc *RunCtx) {
 	}
 	sharedView := t.Choose(2) == 0 // readers share one *Registers, or each makes its own view of the shared response
 	sigBase := fmt.Sprintf("fc%d|%s", fc, fr)
-	rc.Desc = map[string]any{"framing": fr.String(), "function": fc, "start": start, "quantity": qty, "readers": nreaders, "shared_registers_view": sharedView, "ops_reader0": fmt.Sprint(readers[0])}
+	rc.Desc = map[string]any{"framing": fr.String(), "function": fc, "start": start, "quantity": qty, "readers": nreaders, "shared_registers_view": sharedView, "ops_reader0": fmt.Sprint(readers[0][:min(len(readers[0]), 16)]), "reads_by_reader0": len(readers[0])}
 	rc.Nontrivial = true
 	for _, ops := range readers {
 		for _, o := range ops {
@@ -309,6 +328,10 @@ func runC13(rc *RunCtx) {
 	s := NewSim(rc.Sched)
 	s.Tracing = rc.Tracing
 	s.Free = rc.Race
+	if marathon {
+		rc.Probe("one_response_read_hundreds_of_times")
+		s.MaxSteps = 400000
+	}
 	defer s.Activate()()
 	dn := NewDevNet(s, devSeed)
 	dn.ASCIIEvery = []int{2, 1, 4}[t.Choose(3)]
@@ -381,9 +404,21 @@ func runC13(rc *RunCtx) {
 				}
 				view = v
 			}
+			firstView := view
 			for i, o := range readers[r] {
 				if tk.Yield("before-read") == Drained {
 					return
+				}
+				switch o.View {
+				case 1:
+					if v, err := resp.(regsResponse).AsRegisters(uint16(start)); err == nil {
+						if viewOrder != 0 {
+							v = v.WithByteOrder(viewOrder)
+						}
+						view = v
+					}
+				case 2:
+					view = firstView
 				}
 				var heldVals []modbus.FieldValue
 				if !rc.Race && o.Bit%4 == 3 {
